@@ -1140,8 +1140,10 @@ func (c *Core) handleCancelableRequest(ctx context.Context, req *logical.Request
 
 	if wrapping {
 		extraData := map[string]string{}
-		// For controlgroup, store the original request and control group details with the cubbyhole data
-		if auth.PolicyResults != nil && auth.PolicyResults.ControlGroup != nil {
+		// For controlgroup, store the original request and control group details with the cubbyhole data.
+		// This is only done when the request was deferred; otherwise the response being wrapped is the
+		// real one and unwrapping must return it rather than execute the request again.
+		if c.needsApproval(req, auth) {
 			// Obtain identity info for wrapping token metadata
 			_, _, authEntity, _, err := c.fetchACLTokenEntryAndEntity(ctx, req)
 			if err != nil {
